@@ -27,7 +27,7 @@ IMPORTS = ("From Coq Require Import ZArith.\n"
            "From Ford Require Import Base.Str Out.SettingsTypes Gen.Schema Out.Settings Corr.C15.")
 THEOREMS = [
     "C15_schema_sound", "C15_int_roundtrip", "C15_md_toml_agree", "C15_toml_config_agree", "C15_formats_agree",
-    "C15_precedence", "C15_file_over_default", "C15_unknown_key_dropped", "C15_unknown_key_dropped_toml",
+    "C15_precedence", "C15_exclude_dir_derived", "C15_output_dir_excluded", "C15_file_over_default", "C15_unknown_key_dropped", "C15_unknown_key_dropped_toml",
     "C15_unknown_key_dropped_config", "C15_ill_typed_md_bool_named", "C15_ill_typed_md_int_named",
     "C15_ill_typed_md_dict_named", "C15_ill_typed_toml_named", "C15_ill_typed_config_named",
     "C15_text_values_agree", "C15_toml_config_agree_raw", "C15_ill_typed_scalar_full",
